@@ -327,7 +327,7 @@ func (c *Conc) envCompression(s Src) (string, bool) {
 
 // ---------------------------------------------------------------- endpoint URLs
 
-var repURLUnparsable = []string{"://%s", "http://[::1", "http://%s/%%zz", "http://%s:port", "ht tp://%s"}
+var repURLUnparsable = []string{"://%s", "http://[::1", "http://%s/%%zz", "http://%s:port", "ht tp://%s", "http://%s/\x7fa"}
 
 // defaultHostPort: the documented default endpoint of the OTLP exporters.
 func defaultHostPort(http bool) string {
